@@ -1,12 +1,13 @@
 #!/bin/bash
 # Detection matrix: apply every seeded change (seeded/<id>/patch.diff) to a scratch worktree of /repo's HEAD (outside /repo
 # and /verif), run every registered quick check against it (KV_REPO), and record which checks report a violation.
-# usage: [LANES=n] tools/detect_matrix.sh [out-dir] [seed ...]      (default: all seeds; out-dir default: ./matrix_out)
+# usage: [LANES=n] [SRC=dir] tools/detect_matrix.sh [out-dir] [seed ...]   (default: all seeds of seeded/; out-dir: ./matrix_out)
 set -u
 HERE=$(cd "$(dirname "$0")/.." && pwd)
 OUT=${1:-$HERE/matrix_out}; shift || true
 mkdir -p "$OUT"
-SEEDS=${*:-$(ls -d "$HERE"/seeded/C??_? | xargs -n1 basename)}
+SRC=${SRC:-$HERE/seeded}      # SRC=$HERE/benign runs the same matrix over the behaviour-preserving edits (expect no alarm)
+SEEDS=${*:-$(ls -d "$SRC"/C??_* | xargs -n1 basename)}
 PROPS=$(python3 -c "import json;print(' '.join(c['property_id'] for c in json.load(open('$HERE/MANIFEST.json'))['checks']))")
 LANES=${LANES:-3}
 
@@ -16,7 +17,7 @@ lane() {   # lane <n> <seed...>
   git -C /repo worktree add -q --detach "$WT" HEAD || return 2
   : > "$OUT/summary.$N.txt"
   for S in "$@"; do
-    P="$HERE/seeded/$S/patch.diff"
+    P="$SRC/$S/patch.diff"
     git -C "$WT" reset -q --hard; git -C "$WT" clean -fdq
     if ! git -C "$WT" apply "$P" 2>/dev/null; then echo "$S APPLY_FAILED" >> "$OUT/summary.$N.txt"; continue; fi
     row=""
